@@ -19,6 +19,7 @@ import Rl.Lemmas.LineBufferSafe
 import Rl.Lemmas.EditorM
 import Rl.Lemmas.EditorOps
 import Rl.Props.C03
+import Rl.Lemmas.ArgKeys
 open Rl Rl.Spec Rl.Spec.Doc
 
 /-! ### C01_binding_table — every (key, action) of the README tables is what the keymap returns
@@ -870,3 +871,103 @@ example : ((Act.kill (.backwardWord 1 .emacs)).apply charSeg C04_exU .emacs "ab 
     ∧ ((Act.move (.forwardWord 1 .afterEnd .emacs)).apply charSeg C04_exU .emacs "ab cd".toList 0).pos = some 2
     ∧ Covered (Act.kill (.backwardWord 1 .emacs)) := by
   exact ⟨by decide, by decide, by decide, by simp [Covered]⟩
+
+/-! ### C01_numeric_argument_keys — `M-[-]d₀ d₁ … dₙ k` for arbitrary digit sequences (gap filling) -/
+
+/-- **A numeric argument typed key by key, any number of digits.**  Emacs mode, helper without a
+    scripted hinter panic.  The user presses `M-d0` (`d0` a digit or `-`), then keys that decode
+    (`next_key` on the terminal input, `ReadsArg`) to the digits `ds`, then a key `k` that is neither a
+    digit nor `-`.  Then the keymap behaves EXACTLY as if `k` alone had been pressed in a state `s1`
+    that differs from the start only in display fields, has consumed the input up to and including
+    `k`, and holds as pending count / direction the documented value `emacsArg` of the signed decimal
+    number typed (first four significant digits, `M--` alone is −1): `countOf s1.inp.numArgs = (n, p)`.
+    `C01_numeric_argument` assumed the pending argument; this theorem derives it from the keys.
+    Hypotheses: `hnp` (no scripted hinter panic: the argument prompt refreshes the line at every
+    digit), enough fuel for the digits, the documented value is defined (non-zero). -/
+theorem C01_numeric_argument_keys (S : Segmenter) (U : UData) (cfg : EdCfg) (hnp : cfg.hinterPanicAt = none)
+    (fuel : Nat) (d0 : Char) (hd0 : (d0 == '-' || isDigit d0) = true) (s : Ed) (ds : List Nat) (k : KeyEvent)
+    (i' : Input) (hr : ReadsArg s.input ds k i') (hf : ds.length < fuel) (n : Nat) (p : Bool)
+    (hdoc : emacsArg (d0 == '-') (argDigits d0 ds) = some (n, p)) :
+    ∃ s1, s1.core = s.core ∧ s1.input = i' ∧ countOf s1.inp.numArgs = (n, p) ∧
+      s1.inp = { s.inp with numArgs := s1.inp.numArgs } ∧
+      emacs S U cfg fuel ⟨.char d0, Mods.alt⟩ s = emacs S U cfg fuel k s1 := by
+  obtain ⟨s1, h1, h2, h3, h4⟩ := emacs_arg_keys S U cfg hnp fuel d0 hd0 s ds k i' hr hf
+  refine ⟨s1, h1, h2, ?_, ?_, h4⟩
+  · have ha := C01_numeric_argument (d0 == '-') (argDigits d0 ds) s1 n p hdoc (by rw [h3])
+    rw [emacsNumArgs_eq] at ha
+    injection ha with ha
+    exact (Prod.mk.inj ha).1
+  · rw [h3]
+
+/-- non-vacuity: the bytes `2 3 x` decode to the digits 2, 3 and then the key `x`; after `M-1` the
+    documented argument is +123 -/
+example : ReadsArg { buf := [], avail := [50, 51, 120], future := [] } [2, 3] ⟨.char 'x', 0⟩
+      { buf := [], avail := [], future := [] } ∧ emacsArg ('1' == '-') (argDigits '1' [2, 3]) = some (123, true) :=
+  ⟨.digit (k := ⟨.char '2', 0⟩) (i1 := { buf := [51, 120], avail := [], future := [] }) (by rfl) (by rfl)
+    (.digit (k := ⟨.char '3', 0⟩) (i1 := { buf := [120], avail := [], future := [] }) (by rfl) (by rfl)
+      (.done (by rfl) (by rfl))), by decide⟩
+
+/-- no key of the emacs table is `Right` (it lives in the common table) -/
+theorem C01_emacsTable_no_right (e : KeyEvent × DocAction) (he : e ∈ emacsTable) : e.1 ≠ key .right := by
+  simp only [emacsTable, List.mem_cons, List.not_mem_nil, or_false] at he
+  rcases he with he | he | he | he | he | he | he | he | he | he | he | he | he | he | he | he | he | he | he | he | he | he | he | he | he | he | he | he | he | he | he | he | he | he | he | he | he | he | he | he | he | he | he | he | he | he
+  all_goals (subst he; decide)
+
+/-- **`M-[-]d₀ d₁ … dₙ` followed by a key of the emacs binding table yields the documented command
+    with the typed count and direction**, for every digit sequence: the README action of the key,
+    resolved (`DocAction.resolve`) with the count `n` and direction `p` the digits denote
+    (`emacsArg`), is the command the keymap hands to the main loop, and the text is untouched.
+    (Composition of `C01_numeric_argument_keys` with `C01_binding_table_emacs`; no custom bindings,
+    no scripted hinter panic.) -/
+theorem C01_numeric_argument_keys_table (S : Segmenter) (U : UData) (cfg : EdCfg) (hvi : cfg.vi = false)
+    (hb : cfg.binds = []) (hnp : cfg.hinterPanicAt = none)
+    (fuel : Nat) (d0 : Char) (hd0 : (d0 == '-' || isDigit d0) = true) (s : Ed) (ds : List Nat)
+    (e : KeyEvent × DocAction) (he : e ∈ emacsTable)
+    (i' : Input) (hr : ReadsArg s.input ds e.1 i') (hf : ds.length < fuel) (n : Nat) (p : Bool)
+    (hdoc : emacsArg (d0 == '-') (argDigits d0 ds) = some (n, p)) (cmd : Cmd)
+    (hc : (e.2.resolve n p s.line.buf.isEmpty false).toCmd = some cmd) :
+    ∃ s', emacs S U cfg fuel ⟨.char d0, Mods.alt⟩ s = .ok (cmd, s') ∧ s'.line = s.line := by
+  obtain ⟨s1, h1, h2, h3, _, h5⟩ := C01_numeric_argument_keys S U cfg hnp fuel d0 hd0 s ds e.1 i' hr hf n p hdoc
+  have hl := (Ed.core_eq h1).1
+  obtain ⟨s', h6, h7⟩ := C01_binding_table_emacs S U cfg hvi hb fuel s1 e he cmd (by rw [h3, hl]; exact hc)
+    (fun h => C01_emacsTable_no_right e he h.1)
+  exact ⟨s', h5.trans h6, h7.trans hl⟩
+
+/-! ### C01_outcome_readline_exit — the value of a read that ends without a line -/
+
+/-- **The value of the read, EOF / interrupt side**: when the edit loop of a read ends early with
+    an outcome `o` (for `C-c`: `interrupted`, for `C-d` on the empty line: `eof` — `C01_outcome`,
+    `C01_outcome_emacs_keys`, `C01_outcome_vi_keys` give exactly these exits of `mainLoop`), then
+    `readline` returns that outcome and no line, whatever keys came before and whatever the text
+    was.  Companion of `C01_outcome_readline` (the Enter side); no hypothesis besides the exit. -/
+theorem C01_outcome_readline_exit (S : Segmenter) (U : UData) (cfg : EdCfg) (ring : KillRing) (left right : Text)
+    (inp : Input) (o : Rl.Outcome) (s' : Ed)
+    (h : (do if !(left.isEmpty && right.isEmpty) then lb S U (LB.update S U (left ++ right) (blen left))
+             refreshLine S U cfg
+             mainLoop S U cfg (inp.size + 2) : EM Unit) (initEd cfg ring inp) = .error (o, s')) :
+    (readline S U cfg ring left right inp).1 = o := by
+  unfold readline
+  by_cases hc : (!(left.isEmpty && right.isEmpty)) = true
+  · simp only [hc, if_true] at h ⊢
+    have hp : (do lb S U (LB.update S U (left ++ right) (blen left)); refreshLine S U cfg
+                  mainLoop S U cfg (inp.size + 2); editMove S U cfg (LB.moveBufferEnd S U) : EM Unit) =
+        ((do lb S U (LB.update S U (left ++ right) (blen left)); refreshLine S U cfg
+             mainLoop S U cfg (inp.size + 2) : EM Unit) >>= fun _ => editMove S U cfg (LB.moveBufferEnd S U)) := by
+      simp only [EM.bind_assoc']
+    rw [hp, EM.bind_apply, h]
+  · simp only [hc, Bool.false_eq_true, if_false] at h ⊢
+    have hp : (do refreshLine S U cfg
+                  mainLoop S U cfg (inp.size + 2); editMove S U cfg (LB.moveBufferEnd S U) : EM Unit) =
+        ((do refreshLine S U cfg
+             mainLoop S U cfg (inp.size + 2) : EM Unit) >>= fun _ => editMove S U cfg (LB.moveBufferEnd S U)) := by
+      simp only [EM.bind_assoc']
+    rw [hp, EM.bind_apply, h]
+
+/-- non-vacuity of `C01_numeric_argument_keys_table`: `C-f` is an entry of the emacs table and ends
+    an argument; `M-1 2 3 C-f` is documented as "forward 123 characters", `M-- 1 2 C-f` as "backward
+    12 characters" -/
+example : (ctrl 'F', DocAction.move .charRight) ∈ emacsTable
+    ∧ ((DocAction.move .charRight).resolve 123 true false false).toCmd = some (.move (.forwardChar 123))
+    ∧ ((DocAction.move .charRight).resolve 12 false false false).toCmd = some (.move (.backwardChar 12))
+    ∧ isArgKey (ctrl 'F') = false ∧ emacsArg ('-' == '-') (argDigits '-' [1, 2]) = some (12, false) := by
+  refine ⟨by simp [emacsTable], by decide, by decide, by decide, by decide⟩
